@@ -78,6 +78,33 @@ pub fn run(ctx: &mut Ctx) {
         for other in [0x0000u16, 0xffff] {
             super::c08::check_decode(ctx, k, other, &[0u8; 8], &tid);
         }
+        // in-memory raw attributes of 64 KiB and more (the 16-bit length field wraps): decode and Display
+        for (j, len) in [65_536usize, 65_540, 65_544, 65_552, 65_556, 65_568, 131_076].into_iter().enumerate() {
+            idx += 1;
+            if !ctx.mine(idx) {
+                continue;
+            }
+            let mut rng = ctx.rng("typed-oversized", idx);
+            let v = content_class(&mut rng, [0u32, 2, 4][j % 3], len);
+            let raw = stun_types::attribute::RawAttribute::new(stun_types::attribute::AttributeType::new(k.code()), &v);
+            if k == crate::refimpl::attrs::Kind::UnknownAttributes {
+                // its decoded list can only be read back through a re-encode, which a value beyond
+                // the 16-bit length field does not have: decode, format and probe membership only
+                use stun_types::attribute::{AttributeFromRaw, UnknownAttributes};
+                let r = crate::ctx::guard(|| {
+                    UnknownAttributes::from_raw(&raw).map(|a| (format!("{a}").len(), a.has_attribute(stun_types::attribute::AttributeType::new(0x7f7f)))).is_ok()
+                });
+                if let Err(p) = r {
+                    ctx.violation("C01", "no-panic", "AttributeFromRaw::from_raw", &format!("{},oversized", k.name()), || serde_json::json!({"kind": "typed-decode", "attr": k.name(), "raw_type": k.code(), "value": format!("{} bytes", len), "tid": crate::refimpl::crypto::hex(&tid)}), "value or error".into(), format!("panic: {} at {}", p.msg, p.loc));
+                }
+            } else if k != crate::refimpl::attrs::Kind::AlternateDomain {
+                super::c08::check_decode(ctx, k, k.code(), &v, &tid);
+            }
+            if let Err(p) = crate::ctx::guard(|| format!("{raw}").len()) {
+                ctx.violation("C01", "no-panic", "Display for RawAttribute", &format!("{},oversized", k.name()), || serde_json::json!({"kind": "typed-decode", "attr": k.name(), "raw_type": k.code(), "value": format!("{} bytes", len), "tid": crate::refimpl::crypto::hex(&tid)}), "formatted text".into(), format!("panic: {} at {}", p.msg, p.loc));
+            }
+            ctx.count("oversized-values-decoded");
+        }
     }
 
     // ---- streams ----
